@@ -197,7 +197,14 @@ func main() {
 			}
 		}
 	}
-	def, ok := streams[*stream]
+	// "<stream>@r<N>": the same generator, with every block hook first run N times on throw-away
+	// branches and the replicas compared (C18)
+	base := *stream
+	if i := strings.Index(base, "@r"); i > 0 {
+		fmt.Sscan(base[i+2:], &replicas)
+		base = base[:i]
+	}
+	def, ok := streams[base]
 	if !ok {
 		fmt.Fprintln(os.Stderr, "unknown stream", *stream)
 		os.Exit(2)
